@@ -119,3 +119,10 @@ Theorem C15_executable_posterior_correct : forall n l t g, Forall (fun o => P.ox
   PosteriorTab.agree n (PosteriorTab.tab_gp (PosteriorTab.cond_tab n t l)) (P.cond g l).
 Proof. exact PosteriorTab.cond_tab_correct. Qed.
 Print Assumptions C15_executable_posterior_correct.
+
+(* the regenerated IndependentExactGPyTorchModel.predict evaluates the gpytorch model conditioned at the last update and
+   switches to the prior exactly when THAT model holds no targets (not when the pending store is empty) *)
+From VOPyGen Require Gen_extra.
+Theorem C15_independent_predict_reads_the_last_update : Gen_extra.gen_indep_predict_prior_mode = Gen_extra.LastUpdateHoldsNoTargets.
+Proof. reflexivity. Qed.
+Print Assumptions C15_independent_predict_reads_the_last_update.
